@@ -306,6 +306,8 @@ type c17Case struct {
 	GeoAfter int                 `json:"geo_after"` // GeoIP lookups that succeed before the scripted error
 	Level    string              `json:"level"`
 	Hold     bool                `json:"hold"`
+	// real-socket lane (c17_real_driver_test.go): run in a child process on real TCP connections
+	Real *c17RealSpec `json:"real"`
 }
 
 type c17Res struct {
@@ -314,6 +316,15 @@ type c17Res struct {
 	Leaks   []string `json:"leaks"`   // forms found in Out
 	Panic   string   `json:"panic"`
 	Timeout bool     `json:"timeout"`
+	// real-socket lane
+	Skipped      string   `json:"skipped,omitempty"`       // why the case could not be run in this environment
+	Client       string   `json:"client,omitempty"`        // the client address actually used
+	RealMode     string   `json:"real_mode,omitempty"`     // netns-redirect | netns | plain
+	Produced     *c17Err  `json:"produced,omitempty"`      // the error value the real call returned, as a shape
+	ProducedText string   `json:"produced_text,omitempty"` // ... and its text (driver's own call, never a log line)
+	Truncated    int      `json:"truncated,omitempty"`
+	Echo         string   `json:"echo,omitempty"`
+	Setup        []string `json:"setup,omitempty"`
 }
 
 func c17Forms(ip net.IP) []string {
@@ -665,7 +676,7 @@ func TestVerifC17(t *testing.T) {
 	// in the background, started first (their logger takes the level that is set at that moment)
 	var bg sync.WaitGroup
 	for i, c := range cases {
-		if c.Scenario != "wraperr" && c.Scenario != "dtls_real" {
+		if (c.Scenario != "wraperr" && c.Scenario != "dtls_real") || c.Scenario == "real" {
 			continue
 		}
 		bg.Add(1)
@@ -678,11 +689,12 @@ func TestVerifC17(t *testing.T) {
 		time.Sleep(30 * time.Millisecond)
 	}
 	for i, c := range cases {
-		if c.Scenario == "wraperr" || c.Scenario == "dtls_real" {
+		if c.Scenario == "wraperr" || c.Scenario == "dtls_real" || c.Scenario == "real" {
 			continue
 		}
 		res[i] = env.runCase(c)
 	}
+	c17RunReal(t, cases, res)
 	bg.Wait()
 	// statistics modules
 	logger := log.New(f, "[STATS] ", golog.Ldate|golog.Lmicroseconds)
